@@ -22,7 +22,7 @@ KF02, KF03 = "KF-02", "KF-03"
 
 # ------------------------------------------------------------------ generation
 POSNAMES = ["x", "y", "z", "w"]
-ALTNAMES = ["u", "v"]
+ALTNAMES = ["u", "v", "method"]
 KWNAMES = ["k", "j"]
 VK_FOR_ANN = {0: [0, 1, 2, 3, 4, 5], 1: [0], 2: [1], 3: [2, 3], 4: [3], 5: [4, 5]}
 
